@@ -197,7 +197,9 @@ fn hyphenate_impl(hyphenater: &Hyphenator, list: &[ds::Horizontal]) -> Vec<ds::H
                 i += 1;
             };
         // The first char node that triggered the word search will have been put in s.
-        assert!(!s.is_empty());
+        if s.is_empty() {
+            continue;
+        }
 
         // Check if the word can be hyphenated based on the terminating node.
         // TeX.2021.899
